@@ -111,8 +111,14 @@ func handleDemonAgent(Teamserver agent.TeamServer, Header agent.Header, External
 			}
 		}
 
+		/* take the queued jobs in one step: the queue may change between a length check and the take */
+		var job []agent.Job
+		if asked_for_jobs {
+			job = Agent.GetQueuedJobs()
+		}
+
 		/* if there is no job then just reply with a COMMAND_NOJOB */
-		if asked_for_jobs == false || len(Agent.JobQueue) == 0 {
+		if len(job) == 0 {
 			var NoJob = []agent.Job{{
 				Command: agent.COMMAND_NOJOB,
 				Data:    []interface{}{},
@@ -128,10 +134,7 @@ func handleDemonAgent(Teamserver agent.TeamServer, Header agent.Header, External
 
 		} else {
 			/* if there is a job then send the Task Queue */
-			var (
-				job     = Agent.GetQueuedJobs()
-				payload = agent.BuildPayloadMessage(job, Agent.Encryption.AESKey, Agent.Encryption.AESIv)
-			)
+			var payload = agent.BuildPayloadMessage(job, Agent.Encryption.AESKey, Agent.Encryption.AESIv)
 
 			// write the response to the buffer
 			_, err = Response.Write(payload)
